@@ -69,6 +69,7 @@ class MapGen:
         self.act = {r["id"]: r for r in spec["actions"]}
         self.cond = {r["id"]: r for r in spec["conditions"]}
         self.dup_ids = True
+        self.force_quiet = False
 
     def reachable_weapons(self):
         from richchk.model.richchk.unis.unit_id import UnitId
@@ -189,7 +190,7 @@ class MapGen:
         wav_ids = {i: sref(True) for i in rng.sample(range(512), rng.randrange(0, 4))}
         wav = b"".join(struct.pack("<I", wav_ids.get(i, 0)) for i in range(512))
         # ---- UNIS / UNIx
-        quiet_weapons = rng.random() < 0.7  # most editor-form maps leave weapons no unit carries at 0
+        quiet_weapons = rng.random() < 0.7 or self.force_quiet  # most editor-form maps leave weapons no unit carries at 0
 
         def units(nweap):
             lay = L[b"UNIS" if nweap == 100 else b"UNIx"]
